@@ -8,7 +8,7 @@ use std::collections::{BTreeMap, BTreeSet};
 
 use super::run::{Fired, Outcome};
 use super::types::*;
-use super::world::{is_pinned, Snapshot};
+use super::world::Snapshot;
 use crate::oracle::{Cfg, Fmt, Oracle};
 use crate::util::{excerpt, first_diff};
 
@@ -348,6 +348,7 @@ fn viol(props: &[&str], inv_id: &str, step: usize, msg: String) -> Violation {
 pub fn check(
     step: usize,
     before: &Tree,
+    before_seen: &Snapshot,
     inv: &Inv,
     pred: &Prediction,
     after: &Snapshot,
@@ -373,7 +374,8 @@ pub fn check(
             v.push(viol(tree_props, if check_mode { "I14.1-tree" } else { "I15.2-untouched" }, step, format!("path {:?} disappeared", key)));
             continue;
         };
-        let unchanged = Some(&seen.node) == before_node && (matches!(seen.node, Node::Dir) || is_pinned(seen));
+        let same_mtime = before_seen.get(key).map(|b| b.mtime == seen.mtime).unwrap_or(false);
+        let unchanged = Some(&seen.node) == before_node && (matches!(seen.node, Node::Dir) || same_mtime);
         let bytes_now: Option<&[u8]> = match &seen.node {
             Node::File(b) => Some(&b.0),
             _ => None,
@@ -413,6 +415,11 @@ pub fn check(
                 }
             }
             FileExpect::Torn { new } => {
+                if pred.unmodelled.is_some() {
+                    // e.g. the path is listed twice and the run was cut short: which of the two
+                    // writes was interrupted where is not predictable
+                    continue;
+                }
                 let now = bytes_now.unwrap_or(b"<not a file>");
                 let ok_old = unchanged || matches!((before_node, &seen.node), (Some(a), b) if a == b);
                 let ok_new = now == new.as_slice();
@@ -476,6 +483,20 @@ pub fn check(
         }
     }
 
+    // ---- exit status when a standard stream failed (not a crash): the statement's exact value
+    // cannot be demanded (the tool may die on the failed print), but claiming success - exit 0 -
+    // while an input differs or could not be read is untruthful whatever happened to stdout
+    if pred.level == Level::Safety && check_mode && out.exit == Some(0) && out.signal.is_none() && (pred.any_unformatted || pred.any_unreadable) && !pred.walk_fault && pred.unmodelled.is_none() {
+        let crashed = out.trace.iter().any(|e| e.sym == "crash");
+        if !crashed && !matches!(&inv.shape, Shape::Files { mode: Mode::InplaceCheck, .. }) {
+            v.push(viol(
+                &["C14"],
+                "I14.3-exit-stdstream",
+                step,
+                format!("check mode exit status 0 after a failed write to stdout/stderr although an input differs or is unreadable (inputs: {})", summarise_inputs(pred)),
+            ));
+        }
+    }
     // ---- exit status
     if pred.level == Level::Full {
         // (inputs below a failed directory read are not counted in any_unformatted/any_unreadable)
